@@ -4,7 +4,7 @@ from props.walletfam import WalletProp, H
 
 class Prop(WalletProp):
     id = "C15"
-    theorems = ["C15_paranoia_keys", "C15_paranoia_section_shape", "C15_paranoia_preserves_public", "C15_paranoia_noninterference"]
+    theorems = ["C15_paranoia_keys", "C15_paranoia_section_shape", "C15_paranoia_noninterference", "C15_strip_last_row"]
     rule = ("Par: paranoia_mode applied to real generate() outputs (both networks, with and without mnemonic/passphrase) and to adversarial trees: "
             "extra top-level keys carrying secrets, extra fields next to path/pub, rows of 1, 4, 5 columns, empty groups, missing keys, non-list groups; "
             "in Coq every string of the filtered output is checked not to be one of the unfiltered secrets (mnemonic, passphrase, BIP85 values, "
